@@ -2,6 +2,7 @@
 package props
 
 import (
+	"context"
 	"crypto/sha1"
 	"encoding/hex"
 	"encoding/json"
@@ -217,3 +218,5 @@ func sampleSteps(steps []seqrun.Step, n int) []string {
 
 // Extra holds additional sub-commands (child roles with their own protocol).
 var Extra = map[string]func(args []string) int{}
+
+var ctxBg = context.Background()
